@@ -8,6 +8,7 @@ type harnessConfig struct {
 	TestHosted bool     // harness is a _test.go file overlaid into an existing package
 	RootPkgs   string   // simgen -pkgs
 	DevPkgs    string   // simgen -godevpkgs
+	TickPkgs   string   // simgen -tickpkgs: loop budgets only
 	Mounts     []string // virtual=real
 }
 
@@ -62,6 +63,7 @@ var harnesses = map[string]*harnessConfig{
 		// files, and a scheduling point at every atomic load of Parse would drown
 		// the file-system-call granularity this world is about.
 		RootPkgs: "./internal/telemetry,./internal/upload,.,./cmd/gotelemetry",
+		TickPkgs: "./internal/counter",
 		Mounts: append(append([]string{}, commonMounts...),
 			"internal/verifsim/ref/refcfg=sim/ref/refcfg",
 			"internal/verifsim/ref/refreport=sim/ref/refreport",
